@@ -377,6 +377,10 @@ def declare_gateway_level(w):
     s.declare("Gateway", "_io", REF("IO"))
     s.declare("Gateway", "_group", REF("Group"))
     s.declare("Gateway", "id", STR)
+    from contracts.base import GB as GB__
+    w.add(Contract(f"{GB__}:BaseGateway.hasreceiver", {"self": REF("Gateway")}, cases=[Case("ok", restype=BOOL)], trusted=True,
+                   note="whether the receiver thread still runs: says that the CONNECTION has ended, nothing about whether the child PROCESS has exited "
+                        "(a worker with a leftover non-daemon thread closes the connection and lives on)"))
     s.declare("Gateway", "spec", REF("XSpec"))
     s.declare("XSpec", "via", OPT(STR))
     s.declare("Group", "_gateways", SEQ(REF("Gateway")))
